@@ -8,6 +8,7 @@ CONSTANTS
   MaxReq = 3
   MaxBatch = 1
   Hist = FALSE
+  Deliveries = {"single"}
   SplitReg = TRUE
 INVARIANTS TypeOK Partition
 PROPERTIES P_C20
